@@ -136,6 +136,9 @@ class World:
         self.id_lower = "c2:9b:" + ":".join(h[i:i + 2] for i in (0, 2, 4, 6))
         self.acc_id = self.id_lower.upper() if idcase == "upper" else self.id_lower
         self.name = f"dev{h[8:12]}.{HAP}"
+        self.id2 = "c2:9c:" + ":".join(h[i:i + 2] for i in (12, 14, 16, 18))     # a second device (stimulus "other")
+        self.name2 = f"oth{h[20:24]}.{HAP}"
+        self.records2, self.known2 = [], False
         self.loop = new_loop()
         self.loop.set_exception_handler(self._loop_exc)
         _CUR = self
@@ -277,10 +280,9 @@ class World:
     def obs(self):
         p = self.pairing
         d = self.ip.discoveries.get(self.id_lower)
-        others = [k for k in self.ip.discoveries if k != self.id_lower]
         disc = self._abs_desc(d.description) if d is not None else []
-        if others:
-            disc = [{"a": -1, "p": -1, "c": -1, "s": -1}]
+        if any(k not in (self.id_lower, self.id2) for k in self.ip.discoveries):
+            disc = [{"a": -1, "p": -1, "c": -1, "s": -1}]          # a discovery nobody announced
         ent = [(k, v) for k, v in self._cache_view().items() if k.lower() == self.id_lower]
         if not ent:
             cache = []
@@ -377,11 +379,12 @@ class World:
         return self._end()
 
     def resolved(self):
+        if not self.gates:
+            return None              # not applicable in this execution (no slow resolution in flight): no event
         self._begin("resolved")
-        if self.gates:
-            g = self.gates.pop(0)
-            if not g.done():
-                g.set_result(None)
+        g = self.gates.pop(0)
+        if not g.done():
+            g.set_result(None)
         return self._end()
 
     def load(self):
@@ -441,9 +444,12 @@ class World:
         return self._end()
 
     def answer(self, kind):
-        self._begin("answer", kind=kind)
         h = self._held()
-        if h is not None:
+        if h is None:
+            return None              # the accessory holds no request (the schedule came from a behaviour in which
+                                     # the specification chose an optional re-read): nothing to do, no event
+        self._begin("answer", kind=kind)
+        if True:
             conn, req, what = h
             self.held = None
             if kind == "close":
@@ -464,6 +470,40 @@ class World:
                     conn.respond(req, 200, b"\x06", H.TLV8)
         return self._end()
 
+    def restore(self, c, v):
+        self._begin("restore", c=int(c), v=int(v))
+        if self.pairing is not None:
+            _, exc = self.in_loop(lambda: self.pairing.restore_accessories_state(database(int(v)), self.cbase + int(c), None, None))
+            if exc:
+                self.cur["exc"] = exc
+        return self._end()
+
+    def other(self, what):
+        """a second device on the same controller: announce / update (what = 1..3: address class) or remove (0)"""
+        import aiohomekit.zeroconf as AZ
+        from zeroconf import ServiceStateChange
+        self._begin("other", what=int(what))
+        if self.records2:
+            self.zc.cache.async_remove_records(self.records2)
+            self.records2 = []
+        if what:
+            props = {b"id": self.id2.upper().encode(), b"md": b"other", b"c#": str(self.cbase + 7).encode(), b"s#": str(what).encode(),
+                     b"sf": b"1", b"ci": b"2", b"ff": b"0"}
+            info = AZ.AsyncServiceInfo(HAP, self.name2, addresses=[ipaddress.ip_address(f"10.7.{what}.9").packed], port=6000 + what,
+                                       properties=props, weight=0, priority=0)
+            self.records2 = [*info.dns_addresses(), info.dns_pointer(), info.dns_service(), info.dns_text()]
+            self.zc.cache.async_add_records(self.records2)
+            change = "Updated" if self.known2 else "Added"
+            self.known2 = True
+        else:
+            change = "Removed"
+            self.known2 = False
+        _, exc = self.in_loop(lambda: self.ip._handle_service(self.zc, HAP, self.name2, getattr(ServiceStateChange, change)))
+        if exc:
+            self.emit("raised")
+            self.cur["exc"] = exc
+        return self._end()
+
     def db(self, v):
         self._begin("db", v=int(v))
         self.accv = int(v)
@@ -476,6 +516,7 @@ class World:
 
     # ------------------------------------------------------------------ scripts
     def apply(self, step):
+        """returns the logged event, or None when the step is not applicable in this execution"""
         op = step[0]
         self.steps.append(list(step))
         if op == "announce":
@@ -484,6 +525,10 @@ class World:
             return self.answer(step[1])
         if op == "db":
             return self.db(step[1])
+        if op == "restore":
+            return self.restore(step[1], step[2])
+        if op == "other":
+            return self.other(step[1])
         if op in ("ptr", "remove", "tick", "resolved", "load", "list", "rmv", "shutdown", "end"):
             return getattr(self, op)()
         raise ValueError(f"unknown step {step!r}")
